@@ -4,6 +4,7 @@ Units: NodeIter::next, OperatorIterMut::next and the ten iter_*identifiers* adap
 ordered tree shape up to a node bound; each node is either a payload-free operator or an identifier node whose class (write / read /
 function) and name are solver variables.  Oracle: the pre-order occurrence list filtered by class; the mutable iterators must yield
 references to exactly the same positions."""
+import zlib
 import sys, os, time, random, itertools, re
 import z3
 sys.path.insert(0, os.path.dirname(os.path.dirname(os.path.abspath(__file__))))
@@ -11,6 +12,7 @@ import frontend, checklib, replay, models
 from harness import *
 
 PID = 'C14'
+CVC5_RATE = [0.01]
 ITERS = {
     'iter_identifiers': ('Write', 'Read', 'Function'), 'iter_variable_identifiers': ('Write', 'Read'), 'iter_read_variable_identifiers': ('Read',),
     'iter_write_variable_identifiers': ('Write',), 'iter_function_identifiers': ('Function',),
@@ -80,7 +82,7 @@ def unit(u, res):
     ex, outs = C.run(body, args, pc=cons)
     res.bodies |= ex.bodies_used
     res.models |= ex.models_used
-    pr = checklib.Prover(res, timeout_ms)
+    pr = checklib.Prover(res, timeout_ms, CVC5_RATE[0], random.Random(zlib.crc32(repr(u).encode()) ^ checklib.env_seed()))
     name = 'Node::%s on forest %s labels %s' % (fname, forest, ''.join('i' if l == 'id' else 'o' for l in labels))
     classes = [C.VI('Operator', VARIANT[k]) for k in ITERS[itname]]
     for o in outs:
@@ -195,6 +197,7 @@ def main():
     t0 = time.time()
     tier = checklib.env_tier()
     seed = checklib.env_seed()
+    CVC5_RATE[0] = 0.003 if tier == 'quick' else 0.03
     timeout_ms = 60000 if tier == 'quick' else 600000
     frontend.load(overflow_checks=True)
     maxn = 4 if tier == 'quick' else 5
